@@ -85,6 +85,7 @@ type Engine struct {
 	overrides  map[string]*Fn
 	stdin      *stdinModel
 	lastPanicMsg string
+	dbgStack  []string
 	qcache    map[string]cacheEnt
 	cacheHits int
 	noteModel Model
